@@ -143,6 +143,7 @@ func vUsedVars(ss ast.SelectionSet, out map[string]bool) {
 
 // C02: every sub-request is valid for, and owned by, the service it is sent to
 func VerifSubRequests() {
+	vBothPets = true
 	vProp = "C02"
 	vK = verifParam("k", 1)
 	vMinLen = 1 // child steps must actually be issued: the claim is per translation, independent of data
